@@ -572,3 +572,90 @@ def c08_n4(ctx):
             yield ok("C08-N4", key, at(g2, s["span"]["line"]), "naks = get_all_naks()")
         else:
             yield bad("C08-N4", key, at(g2, s["span"]["line"]), "the NAK queue is replaced by %s" % e[:160])
+
+
+NAK_QUEUE_OK = {
+    # (function, mutator) pairs confirmed by reading
+    ("send_naks", "drain"): "requests leave the queue by being sent",
+    ("handle_timeout", "push_back"): "checked by C08-N1",
+    ("get_all_naks", "push_back"): "local list, checked by C08-N1",
+    ("process_pdu", "push_back"): "checked by C08-N1",
+}
+READ_ONLY = ("len", "is_empty", "iter", "front", "back", "get", "contains", "as_slices", "deref", "clone", "first", "last")
+
+
+@rule("C08", "C08-N5", 3, "requests leave the receiver's NAK queue only by being sent (drain in send_naks) or by a full recomputation; nothing else shrinks or edits it")
+def c08_n5(ctx):
+    fns = impl_and_closures(ctx, RECV)
+    n = 0
+    cnt = {}
+    for f in fns:
+        eb = ExprBuilder(ctx.prog, f, inline=False)
+        for b, t in f.all_calls():
+            e = eb.call(b, t)
+            if not e[3]:
+                continue
+            a0 = expr_str(e[3][0])
+            if a0 not in ("&mut self.naks", "&self.naks"):
+                continue
+            last = (callee_name(e) or "").split("::")[-1]
+            if last in READ_ONLY:
+                continue
+            n += 1
+            fname = f.name if f.kind != "Closure" else short(f.root or f.norm).split("::")[-1]
+            base = "RecvTransaction::%s:naks.%s" % (fname, last)
+            cnt[base] = cnt.get(base, 0) + 1
+            key = base + ("#%d" % cnt[base] if cnt[base] > 1 else "")
+            why = NAK_QUEUE_OK.get((fname, last))
+            if why:
+                yield ok("C08-N5", key, at(f, t["span"]["line"]), why)
+            else:
+                yield bad("C08-N5", key, at(f, t["span"]["line"]), "the NAK queue is modified by %s in %s: a queued request for data still missing can be dropped or altered without having been sent" % (last, fname))
+    if n == 0:
+        raise Anchor("C08-N5", "mutators of RecvTransaction.naks")
+
+
+@rule("C08", "C08-N6", 1, "when EOF arrives and data or metadata is still missing, a request is queued at once or a delayed check over the whole file is scheduled - on every path")
+def c08_n6(ctx):
+    f = ctx.one("C08-N6", "RecvTransaction::process_pdu")
+    eb = ExprBuilder(ctx.prog, f)
+    n = 0
+    err = {x for x, tt in f.all_calls() if (ctx.prog.callee_of(tt)[0] or "").endswith("FromResidual::from_residual")}
+    for b in f.live_blocks():
+        t = f.blocks[b]["term"]
+        if t["k"] != "switch":
+            continue
+        c = eb.operand(t["discr"])
+        if not (c[0] == "call" and (callee_name(c) or "").endswith("RecvTransaction::has_naks")):
+            continue
+        n += 1
+        done = set()
+        region = f.reachable(t["otherwise"])
+        for x in region:
+            blk = f.blocks[x]
+            for s in blk["stmts"]:
+                if s["k"] == "assign" and f.place_str(s["place"]) == "self.naks" and sstr(eb.rvalue(s["rv"])) == "RecvTransaction::get_all_naks(self)":
+                    done.add(x)
+            tt = blk["term"]
+            if tt["k"] == "call":
+                ce = simp(eb.call(x, tt))
+                cal = callee_name(ce) or ""
+                if f.place_str(tt["dest"]) == "self.naks" and cal.endswith("RecvTransaction::get_all_naks"):
+                    done.add(x)
+                if cal.endswith("Vec::push") and expr_str(ce[3][0]) == "self.delayed_nack_timers":
+                    tup = ce[3][1]
+                    if tup[0] == "agg" and len(tup[5]) == 3 and expr_str(tup[5][1]) == "const(0)":
+                        hi = expr_str(tup[5][2])
+                        mm = re.match(r"^(\w+)\.file_size$", hi)
+                        src = [expr_str(y) for y in eb.var_defs(mm.group(1))] if mm else [hi]
+                        if hi.endswith(".file_size") and src and all("@EoF.0" in y for y in src):
+                            done.add(x)
+        r2 = f.reachable(t["otherwise"], avoid=done | err)
+        rets = [x for x in r2 if f.blocks[x]["term"]["k"] == "return"]
+        key = "process_pdu:eof-with-naks" + ("#%d" % n if n > 1 else "")
+        if rets or not done:
+            yield bad("C08-N6", key, at(f, t["span"]["line"]), "after EOF with has_naks() == true a path returns without queueing get_all_naks() or scheduling a delayed check of [0, EOF size): missing data would never be requested")
+        else:
+            yield ok("C08-N6", key, at(f, t["span"]["line"]), {"request_blocks": sorted(done)})
+    if n == 0:
+        raise Anchor("C08-N6", "has_naks() test in process_pdu")
